@@ -136,7 +136,7 @@ def _mp_strategy(tier, name):
     @st.composite
     def case(draw):
         dim = 2 if name == "dif2d" else 3
-        return {"kernel": name, "shape": draw(gen.grid_shape(dim, 3, 24 if dim == 2 else 9)), "dtype": draw(gen.precisions),
+        return {"kernel": name, "shape": draw(gen.grid_shape(dim, 3, 24 if dim == 2 else 9, long_axis=70 if dim == 2 else 40)), "dtype": draw(gen.precisions),
                 "threads": draw(st.sampled_from([False, 1, 2])),
                 "field": draw(gen.vector_field_spec(3, kinds=["spikes", "checker", "noise", "mixed", "bumps", "poly", "constant"], max_mag_exp=8)),
                 "lam_frac": draw(st.one_of(st.just(1.0), st.just(0.0), gen.floats(0.001, 1.0, 32), gen.floats(0.001, 1.0, 32)))}
